@@ -227,7 +227,7 @@ class Flow:
             if not self.p0_close:
                 self.note("initial covariance is not T diag(sd^2) T' (+ sensor-model P blocks) built from transform_to_internal")
 
-    @_safe(lambda: dict(s=0, pin=0, pout=0, xin=0, xout=0, pin_bit=True, pin_close=True, xin_ok=True, xin_bit=True, args_ok=True))
+    @_safe(lambda: dict(s=0, pin=0, pout=0, xin=0, xout=0, pin_bit=True, pin_close=True, xin_ok=True, xin_bit=True, args_ok=True, out_ok=True))
     def on_correct(self, sidx, xin, Pin, z, H, R, out):
         xout, Pout, innov = out
         if not self.snaps and self.p0_bit is None:
@@ -251,6 +251,25 @@ class Flow:
                   and Hf.shape == (len(np.asarray(zr)), self.n) and np.array_equal(Hf[:, :self.ni], np.asarray(Hr, float))
                   and not np.any(Hf[:, self.ni:]))
         c["args_ok"] = bool(ok)
+        # the step itself: the conditional-Gaussian update in its plain textbook form (C07 decides this exactly on its own domain; here
+        # it is a numeric predicate on the real data, 1e-6 relative to the PRIOR scale - far above what the plain form loses to
+        # cancellation on these runs and far below the effect of a wrong update)
+        try:
+            Pp = np.asarray(Pin, float); Hh = np.asarray(H, float); Rr_ = np.asarray(R, float)
+            e = np.asarray(z, float) - Hh @ np.asarray(xin, float)
+            S = Hh @ Pp @ Hh.T + Rr_
+            K = np.linalg.solve(S, Hh @ Pp).T
+            xe = np.asarray(xin, float) + K @ e
+            Pe = Pp - K @ S @ K.T
+            dsc = np.sqrt(np.abs(np.diag(Pp)))
+            tolP = 1e-6 * np.outer(dsc, dsc) + 1e-300
+            tolx = 1e-6 * (dsc + np.abs(xe)) + 1e-300
+            c["out_ok"] = bool(np.isfinite(np.asarray(Pout, float)).all() and (np.abs(np.asarray(Pout, float) - Pe) <= tolP).all()
+                               and (np.abs(np.asarray(xout, float) - xe) <= tolx).all())
+        except np.linalg.LinAlgError:
+            c["out_ok"] = True           # a singular innovation covariance: nothing to compare with
+        if not c["out_ok"]:
+            self.note("kalman.correct did not return the conditional mean / covariance for a %d-row measurement" % len(np.asarray(z)))
         if not c["pin_close"]:
             self.note("kalman.correct was given a covariance that is not the current one (last correction / propagation result)")
         if not c["xin_ok"]:
@@ -462,9 +481,29 @@ class Recorder:
         self.lines.append(line)
 
 
+def baro_class(m):
+    """A user-written scalar measurement, as the documentation of measurements.Measurement invites: barometric altitude.
+    Altitude error (INS minus truth) is minus the down position error DR3."""
+    M = m["measurements"]
+
+    class BaroAltitude(M.Measurement):
+        def __init__(self, data, sd):
+            super(BaroAltitude, self).__init__(data[['alt']])
+            self.R = np.array([[float(sd) ** 2]])
+
+        def compute_matrices(self, time, pva, error_model):
+            if time not in self.data.index or not error_model.with_altitude:
+                return None
+            z = np.array([float(pva['alt']) - float(self.data.loc[time, 'alt'])])
+            H = np.zeros((1, error_model.n_states))
+            H[0, error_model.DR3] = -1.0
+            return z, H, self.R
+    return BaroAltitude
+
+
 def _wrap_measurement(m, cls_name, data, sidx, rec, rng):
     M = m["measurements"]
-    base = getattr(M, cls_name)
+    base = baro_class(m) if cls_name == "BaroAltitude" else getattr(M, cls_name)
 
     def compute_matrices(self, time, pva, error_model):
         ret = base.compute_matrices(self, time, pva, error_model)
@@ -475,6 +514,8 @@ def _wrap_measurement(m, cls_name, data, sidx, rec, rng):
         return sub(data, 1.0, np.array([0.5, -0.3, 0.2]) if rng.rand() < 0.5 else None)
     if cls_name == "NedVelocity":
         return sub(data, 0.1, np.array([0.5, -0.3, 0.2]) if rng.rand() < 0.5 else None)
+    if cls_name == "BaroAltitude":
+        return sub(data, 0.5)
     return sub(data, 0.1)
 
 
@@ -490,6 +531,9 @@ def make_meas_data(m, cls_name, stamps, pva, rng, far=False):
     elif cls_name == "NedVelocity":
         d = np.tile([pva.VN, pva.VE, 0.0], (n, 1)) + 0.1 * rng.randn(n, 3)
         cols = ['VN', 'VE', 'VD']
+    elif cls_name == "BaroAltitude":
+        d = np.tile([pva.alt], (n, 1)) + 0.5 * rng.randn(n, 1)
+        cols = ['alt']
     else:
         d = 0.1 * rng.randn(n, 3) + [1.0, 0.0, 0.0]
         cols = ['VX', 'VY', 'VZ']
@@ -796,7 +840,7 @@ def abstract_record(rec, tid):
                            aok=bool(ln.get("aok", True)),
                            w=[w[0] for w in ln["widths"]], wok=all(w[0] == w[1] == w[2] == w[3] for w in ln["widths"]),
                            c=[dict(s=c["s"], pin=c["pin"], pout=c["pout"], xin=c["xin"], xout=c["xout"], pin_bit=c["pin_bit"], pin_ok=c["pin_close"],
-                                   xin_ok=c["xin_ok"], xin_bit=c["xin_bit"], args_ok=c["args_ok"]) for c in ln.get("c", [])],
+                                   xin_ok=c["xin_ok"], xin_bit=c["xin_bit"], args_ok=c["args_ok"], out_ok=c.get("out_ok", True)) for c in ln.get("c", [])],
                            set_ok=bool(ln.get("set_ok", True)), set_bit=bool(ln.get("set_bit", True)), upd_ok=bool(ln.get("upd_ok", True)),
                            pva_ok=bool(ln.get("pva_ok", True))))
         elif kind == "fb":
